@@ -122,6 +122,16 @@ func c06Run(c *core.Ctx, scn stopScn, h *hist.History, l *hist.Layout, tables []
 	wit := func() map[string]interface{} {
 		return witnessOf(scn, h, s, map[string]interface{}{"stream_err": errStr(streamErr), "error_err": errStr(errErr)})
 	}
+	// An event type the pinned library does not support (RowsQuery, IntVar,
+	// Rand) is a failure only for a library that does not support it: if the
+	// stream went on and delivered exactly the whole history up to the
+	// master's EOF, nothing failed and the attempt is judged as an EOF ending.
+	if cls == "unsupported-event" && streamErr == nil {
+		if run.CompareAll(hist.Expect(h, l, start), res.Delivered, false) == nil {
+			c.Cell("unsupported-event-tolerated(judged as eof)")
+			cls = "eof"
+		}
+	}
 	// (i) parser-side failures must make Stream fail
 	parserSide := false
 	switch cls {
